@@ -382,6 +382,9 @@ func finish(w *World, p *Plan, r *Result) {
 	if k.StepLimit {
 		r.Infra = append(r.Infra, "step-limit")
 	}
+	if k.Abandoned {
+		r.Stats["skipped:world-abandoned-long-time-jump-over-periodic-program-timers"]++
+	}
 	if *fTrace {
 		for _, l := range k.TraceLog {
 			fmt.Fprintln(os.Stderr, l)
